@@ -32,14 +32,20 @@ import (
 
 func TestMain(m *testing.M) {
 	gen.Quiet()
-	log.VerifSetCritHandler(func(msg string) { panic(log.VerifCritPanic{Msg: msg}) })
+	// log.Crit ends the process in production: nothing runs after it, no deferred function either. The
+	// goroutine that hit it is therefore parked for good (unwinding it with a panic would run the node's
+	// deferred unlocks in a state the real process never reaches) and the watchdog reports the death.
+	log.VerifSetCritHandler(func(msg string) {
+		critCh <- msg
+		select {}
+	})
 	ev.MustHit("crash-inside-import", "crash-inside-reorg", "crash-inside-stop-flush", "fault:batch-write", "fault:single-put", "fault:node-died(log.Crit)",
-		"archive", "pruning", "history-with-reorg", "history-with-storage-contract", "image-head-is-not-final-head", "refeed-converged", "closure-checked", "stop-leg:pruning", "history-reuses-deployed-contract")
+		"archive", "pruning", "history-with-reorg", "history-with-storage-contract", "image-head-is-not-final-head", "refeed-converged", "closure-checked", "stop-leg:pruning", "history-reuses-deployed-contract", "history-with-restart", "directed:side-branch-overtakes-after-restart", "refeed-latest-first")
 	ev.MustHitThorough("big-state-flush")
 	ev.Main(m, ev.Config{
 		Property: "C04",
 		Level:    "fault_enumeration",
-		Rule: "for each rapid-generated history (block tree with reorganisations to longer and to shorter-heavier branches, contracts with storage, archive or pruning cache, final Stop) the write log of a crash-free run is recorded by a wrapping database; EVERY prefix of the log (exhaustive per history) is materialised as a crash image, reopened with NewBlockChain and judged (no error/panic, head = last head the log made, complete state re-rooted with the reference MPT, number index = ancestry, closure of every state root on disk, re-feeding converges); " +
+		Rule: "for each rapid-generated history (block tree with reorganisations to longer and to shorter-heavier branches, contracts with storage, archive or pruning cache, clean restarts between batches, final Stop) the write log of a crash-free run is recorded by a wrapping database; EVERY prefix of the log (exhaustive per history) is materialised as a crash image, reopened with NewBlockChain and judged (no error/panic, head = last head the log made, complete state re-rooted with the reference MPT, number index = ancestry, closure of every state root on disk, re-feeding converges); " +
 			"then the history is re-run with one write step failing (every batch write + a stratified sample of single puts in quick, all in thorough), under a watchdog, and the resulting database judged the same way. " +
 			"A further leg judges only the images of the shutdown flush (every step inside it, and the clean image) over many longer histories that deploy contracts and use them again blocks later (pruning and archive). " +
 			"non-trivial = a (history, step) pair whose step lies strictly inside a block import, reorganisation or shutdown flush (not on an InsertChain boundary); distinct by history hash + step index + mode",
@@ -57,6 +63,7 @@ var headBlockKey = []byte("LastBlock")
 type history struct {
 	tr      *gen.Tree
 	batches []gen.Batch
+	restart []bool // restart[i]: the node is stopped cleanly and reopened before batch i
 	cache   string
 	name    string
 }
@@ -79,7 +86,12 @@ type runResult struct {
 	stopFrom  int // applied steps when Stop began
 }
 
+var critCh = make(chan string, 64)
+
 func withWatchdog(d time.Duration, f func()) (dump string, panicked interface{}) {
+	for len(critCh) > 0 { // a death reported by a background goroutine of an abandoned node
+		<-critCh
+	}
 	done := make(chan interface{}, 1)
 	go func() {
 		defer func() { done <- recover() }()
@@ -88,6 +100,8 @@ func withWatchdog(d time.Duration, f func()) (dump string, panicked interface{})
 	select {
 	case p := <-done:
 		return "", p
+	case msg := <-critCh:
+		return "", log.VerifCritPanic{Msg: msg}
 	case <-time.After(d):
 		buf := make([]byte, 1<<20)
 		n := runtime.Stack(buf, true)
@@ -106,7 +120,26 @@ func run(h *history, failAt int) *runResult {
 	}
 	db.StartRecording()
 	db.FailAt(failAt)
-	for _, b := range h.batches {
+	for bi, b := range h.batches {
+		if bi < len(h.restart) && h.restart[bi] {
+			// a clean stop and a new process in the middle of the history (a pruning node then holds
+			// only the flushed states; later side blocks are stored unexecuted)
+			var rerr error
+			dump, p := withWatchdog(60*time.Second, func() {
+				n.Chain.Stop()
+				core.VerifResetGlobals()
+				n, rerr = gen.NewNode(db, h.tr.B.Genesis, cacheOf(h.cache), nil)
+			})
+			if dump != "" {
+				res.deadlock = dump
+				return res
+			}
+			if p != nil || rerr != nil {
+				res.died = fmt.Sprint("restart: ", p, rerr)
+				res.bounds = append(res.bounds, db.Steps())
+				return res
+			}
+		}
 		var ierr error
 		dump, p := withWatchdog(60*time.Second, func() { _, ierr = n.Chain.InsertChain(b.Blocks()) })
 		if dump != "" {
@@ -239,8 +272,40 @@ func judge(h *history, img *aquadb.MemDatabase, steps []faultdb.Step, k int, fin
 			return fmt.Sprintf("%s: after reopening, the body of canonical block #%d is missing", what, x.Index), nil
 		}
 	}
-	// (f) feeding the original blocks again converges to the crash-free head
-	for i, b := range h.batches {
+	// (f) feeding the original blocks again converges to the crash-free head. The batches come in their
+	// original order for even images and latest-first for odd ones (a batch is offered as soon as the block
+	// it builds on is there): peers re-announce branches in no particular order.
+	order := h.batches
+	if k%2 == 1 {
+		order = nil
+		fed := map[int]bool{}
+		for len(order) < len(h.batches) {
+			progress := false
+			for i := len(h.batches) - 1; i >= 0; i-- {
+				if fed[i] {
+					continue
+				}
+				par := h.batches[i][0].Parent
+				linkable := bc.GetBlock(par.Block.Hash(), par.Height) != nil // header and body (a crash can leave a block half written)
+				for j := range h.batches {
+					if fed[j] && h.batches[j][len(h.batches[j])-1] == par {
+						linkable = true
+					}
+				}
+				if linkable {
+					fed[i], progress = true, true
+					order = append(order, h.batches[i])
+					break
+				}
+			}
+			if !progress { // cannot happen for a parent-closed history; fall back to the original order
+				order = h.batches
+				break
+			}
+		}
+		labels = append(labels, "refeed-latest-first")
+	}
+	for i, b := range order {
 		var ierr error
 		dump, p := withWatchdog(60*time.Second, func() { _, ierr = bc.InsertChain(b.Blocks()) })
 		if dump != "" {
@@ -250,7 +315,15 @@ func judge(h *history, img *aquadb.MemDatabase, steps []faultdb.Step, k int, fin
 			return fmt.Sprintf("%s: re-feeding batch %d panics: %v", what, i, p), nil
 		}
 		if ierr != nil {
-			return fmt.Sprintf("%s: re-feeding batch %d (blocks #%d..) is refused: %v", what, i, b[0].Index, ierr), nil
+			dbg := fmt.Sprintf(" [order:")
+			for _, ob := range order {
+				dbg += fmt.Sprintf(" #%d+%d", ob[0].Index, len(ob))
+			}
+			dbg += fmt.Sprintf("; head now #%d, header head #%d; image head-block key #%d, reopened head was #%d]", idxOf(tr.ByHash[bc.CurrentBlock().Hash()]), idxOf(tr.ByHash[bc.CurrentHeader().Hash()]), E.Index, got.Index)
+			for _, nd := range tr.Nodes {
+				dbg += fmt.Sprintf(" #%d:blk=%v,state=%v", nd.Index, bc.GetBlock(nd.Block.Hash(), nd.Height) != nil, bc.HasState(nd.Block.Root()))
+			}
+			return fmt.Sprintf("%s: re-feeding batch %d (blocks #%d..) is refused: %v%s", what, i, b[0].Index, ierr, dbg), nil
 		}
 	}
 	end := tr.ByHash[bc.CurrentBlock().Hash()]
@@ -279,7 +352,12 @@ func drawHistory(t *rapid.T, big bool) *history {
 	h := &history{tr: tr, cache: rapid.SampledFrom([]string{"archive", "pruning"}).Draw(t, "cache")}
 	h.batches = gen.DrawHistory(t, tr, 4, true)
 	var sb strings.Builder
-	for _, b := range h.batches {
+	for i, b := range h.batches {
+		r := i > 0 && rapid.IntRange(0, 4).Draw(t, "restartbefore") == 0
+		h.restart = append(h.restart, r)
+		if r {
+			sb.WriteString("RESTART ")
+		}
 		fmt.Fprintf(&sb, "#%d+%d ", b[0].Index, len(b))
 	}
 	h.name = fmt.Sprintf("%s/%s/%s| %s", nc.Name, h.cache, strings.Join(tr.Describe(), ";"), sb.String())
@@ -330,6 +408,59 @@ func TestCrashAndFaultEnumeration(t *testing.T) {
 	})
 }
 
+// TestCrashWhileSideBranchOvertakes: the same enumeration over a directed shape:
+// a pruning node imports the slow main branch, is restarted (it then holds only
+// the flushed states), and receives a faster rival branch that forks near the
+// root piece by piece: its first blocks are stored unexecuted as side blocks,
+// the last ones make it win and the whole branch is executed. Every write step
+// of that is a crash point and a fault point.
+func TestCrashWhileSideBranchOvertakes(t *testing.T) {
+	ev.Check(t, ev.N(8, 160), func(t *rapid.T) {
+		nc := gen.ConfigByName("steep")
+		tr := gen.DrawTree(t, nc, gen.TreeOpts{MaxBranches: 2, MaxDepth: 7, MinMain: 5, MaxTxs: 2, ForceRival: true, TimeDeltas: []int64{1, 13, 240, 3000},
+			Kinds: []string{"transfer", "store-set", "store-clear", "create", "touch-created", "emit"}})
+		defer tr.Close()
+		var main, rival gen.Batch
+		for _, nd := range tr.Nodes[1:] {
+			if nd.Branch == 0 {
+				main = append(main, nd)
+			} else {
+				rival = append(rival, nd)
+			}
+		}
+		if len(rival) < 2 {
+			t.Skip("the rival branch is a single block")
+		}
+		h := &history{tr: tr, cache: "pruning"}
+		cut := rapid.IntRange(1, len(main)).Draw(t, "maincut")
+		h.batches = append(h.batches, main[:cut])
+		h.restart = append(h.restart, false)
+		if cut < len(main) {
+			h.batches = append(h.batches, main[cut:])
+			h.restart = append(h.restart, false)
+		}
+		for first := true; len(rival) > 0; first = false {
+			k := rapid.IntRange(1, 2).Draw(t, "rivalpiece")
+			if k > len(rival) {
+				k = len(rival)
+			}
+			h.batches = append(h.batches, rival[:k])
+			h.restart = append(h.restart, first || rapid.IntRange(0, 5).Draw(t, "restartagain") == 0)
+			rival = rival[k:]
+		}
+		var sb strings.Builder
+		for i, b := range h.batches {
+			if h.restart[i] {
+				sb.WriteString("RESTART ")
+			}
+			fmt.Fprintf(&sb, "#%d+%d ", b[0].Index, len(b))
+		}
+		h.name = fmt.Sprintf("%s/%s/%s| %s", nc.Name, h.cache, strings.Join(tr.Describe(), ";"), sb.String())
+		ev.Label("directed:side-branch-overtakes-after-restart")
+		enumerate(t, h)
+	})
+}
+
 func enumerate(t *rapid.T, h *history) {
 	base := run(h, -1)
 	if base.deadlock != "" || base.died != "" {
@@ -359,6 +490,12 @@ func enumerate(t *rapid.T, h *history) {
 			if k == "store-set" || k == "multistore" || k == "create" {
 				lbl = append(lbl, "history-with-storage-contract")
 			}
+		}
+	}
+	for _, r := range h.restart {
+		if r {
+			lbl = append(lbl, "history-with-restart")
+			break
 		}
 	}
 	ev.Label(lbl...)
